@@ -3,6 +3,9 @@
 use crate::report::Ctx;
 use serde_json::Value;
 
+pub mod c05;
+pub mod c06;
+pub mod manager;
 pub mod c14;
 pub mod selftest;
 pub mod c15;
@@ -12,6 +15,8 @@ pub mod c20;
 
 /// (property id, evidence level, check function)
 pub const REGISTRY: &[(&str, &str, fn(&mut Ctx))] = &[
+    ("C05", "model_checking", c05::run),
+    ("C06", "model_checking", c06::run),
     ("C14", "model_checking", c14::run),
     ("C15", "model_checking", c15::run),
     ("C17", "model_checking", c17::run),
@@ -21,6 +26,7 @@ pub const REGISTRY: &[(&str, &str, fn(&mut Ctx))] = &[
 
 pub fn replay(id: &str, case: &Value) -> Result<String, String> {
     match id {
+        "C05" | "C06" => manager::replay(case),
         "C14" => c14::replay(case),
         "C15" => c15::replay(case),
         "C17" => c17::replay(case),
